@@ -154,7 +154,11 @@ func (e *skelEval) run(fn *ssa.Function, args []*big.Int) (*big.Int, error) {
 						v := get(a)
 						as = append(as, v)
 					}
-					if known && as[0] != nil && isIntegerType(x.Type(), e.sizes) {
+					isBool := false
+					if b, ok := x.Type().Underlying().(*types.Basic); ok && b.Kind() == types.Bool {
+						isBool = true
+					}
+					if known && as[0] != nil && (isIntegerType(x.Type(), e.sizes) || isBool) {
 						e.depth++
 						if r, err := e.run(sc, as); err == nil {
 							env[x] = r
